@@ -141,6 +141,7 @@ type Run struct {
 	tlCounter            int
 	helperExp            map[string]string
 	helperSeen           map[string][]string
+	abortFromHook        bool
 	hist                 []histOp
 }
 
@@ -318,7 +319,16 @@ func (r *Run) run() {
 	r.s.onRw = r.onRw
 	r.s.onSeam = r.onSeam
 	r.s.onQuiescent = r.onQuiescent
-	r.s.onRestore = r.onRestore
+	r.s.onRestore = func(point string) {
+		r.onRestore(point)
+		r.mu.Lock()
+		ab := r.abortFromHook
+		r.mu.Unlock()
+		if ab {
+			r.s.Abort("violation")
+			panic(abortSig{})
+		}
+	}
 	boltz.SimHook = r.s.SimHook
 	simseam.Hook = r.s.SeamHook
 
